@@ -165,6 +165,21 @@ theorem packLoop_gate (fuel : Nat) (g g' : Graph) (fresh fresh' : List Nat)
         obtain ⟨g2, hs, h⟩ := h
         exact ih g2 fr1 h
 
+theorem packTail_gate (g g' : Graph) (fresh fresh' : List Nat)
+    (h : packTail g fresh = some (true, g', fresh')) :
+    hasOverflows g' = some false ∨ findOverflows g' = some [] := by
+  unfold packTail at h
+  simp only [Option.bind_eq_bind, Option.bind_eq_some_iff] at h
+  obtain ⟨⟨b, g2, fr2⟩, ha, g3, hs, ov, hov, h⟩ := h
+  cases ov with
+  | false =>
+    simp only [Bool.not_false, ↓reduceIte, Option.some.injEq, Prod.mk.injEq, true_and] at h
+    obtain ⟨rfl, rfl⟩ := h
+    left; exact hov
+  | true =>
+    simp only [Bool.not_true, Bool.false_eq_true, ↓reduceIte] at h
+    right; exact packLoop_gate _ _ _ _ _ h
+
 theorem packObjects_gate (g g' : Graph) (fresh fresh' : List Nat)
     (h : packObjects g fresh = some (true, g', fresh')) :
     hasOverflows g' = some false ∨ findOverflows g' = some [] := by
@@ -177,16 +192,8 @@ theorem packObjects_gate (g g' : Graph) (fresh fresh' : List Nat)
     obtain ⟨rfl, rfl⟩ := h
     left; exact basicSort_gate g g1 hb
   | false =>
-    simp only [Bool.false_eq_true, ↓reduceIte, Option.bind_eq_some_iff] at h
-    obtain ⟨⟨b, g2, fr2⟩, ha, g3, hs, ov, hov, h⟩ := h
-    cases ov with
-    | false =>
-      simp only [Bool.not_false, ↓reduceIte, Option.some.injEq, Prod.mk.injEq, true_and] at h
-      obtain ⟨rfl, rfl⟩ := h
-      left; exact hov
-    | true =>
-      simp only [Bool.not_true, Bool.false_eq_true, ↓reduceIte] at h
-      right; exact packLoop_gate _ _ _ _ _ h
+    simp only [Bool.false_eq_true, ↓reduceIte] at h
+    exact packTail_gate g1 g' fresh fresh' h
 
 /-! ### the order a successful pack leaves behind comes straight out of a sort -/
 
@@ -247,6 +254,20 @@ theorem packLoop_sortedOut (fuel : Nat) (g g' : Graph) (fresh fresh' : List Nat)
         obtain ⟨g2, hs2, h⟩ := h
         exact ih g2 fr1 (sortShortest_sortedOut _ g2 hs2).1 h
 
+theorem packTail_sortedOut (g g' : Graph) (fresh fresh' : List Nat)
+    (h : packTail g fresh = some (true, g', fresh')) : SortedOut g' := by
+  unfold packTail at h
+  simp only [Option.bind_eq_bind, Option.bind_eq_some_iff] at h
+  obtain ⟨⟨b, g2, fr2⟩, ha, g3, hs, ov, hov, h⟩ := h
+  cases ov with
+  | false =>
+    simp only [Bool.not_false, ↓reduceIte, Option.some.injEq, Prod.mk.injEq, true_and] at h
+    obtain ⟨rfl, rfl⟩ := h
+    exact (sortShortest_sortedOut _ g3 hs).1
+  | true =>
+    simp only [Bool.not_true, Bool.false_eq_true, ↓reduceIte] at h
+    exact packLoop_sortedOut _ _ _ _ _ (sortShortest_sortedOut _ g3 hs).1 h
+
 theorem packObjects_sortedOut (g g' : Graph) (fresh fresh' : List Nat) (hn : 1 < g.nodes.length)
     (h : packObjects g fresh = some (true, g', fresh')) : SortedOut g' := by
   unfold packObjects at h
@@ -258,15 +279,7 @@ theorem packObjects_sortedOut (g g' : Graph) (fresh fresh' : List Nat) (hn : 1 <
     obtain ⟨rfl, rfl⟩ := h
     exact basicSort_sortedOut g g1 true hn hb
   | false =>
-    simp only [Bool.false_eq_true, ↓reduceIte, Option.bind_eq_some_iff] at h
-    obtain ⟨⟨b, g2, fr2⟩, ha, g3, hs, ov, hov, h⟩ := h
-    cases ov with
-    | false =>
-      simp only [Bool.not_false, ↓reduceIte, Option.some.injEq, Prod.mk.injEq, true_and] at h
-      obtain ⟨rfl, rfl⟩ := h
-      exact (sortShortest_sortedOut _ g3 hs).1
-    | true =>
-      simp only [Bool.not_true, Bool.false_eq_true, ↓reduceIte] at h
-      exact packLoop_sortedOut _ _ _ _ _ (sortShortest_sortedOut _ g3 hs).1 h
+    simp only [Bool.false_eq_true, ↓reduceIte] at h
+    exact packTail_sortedOut g1 g' fresh fresh' h
 
 end FontVerif.Graph
